@@ -15,6 +15,7 @@
 #include <cocls/async.h>
 #include <cocls/mutex.h>
 #include <cocls/queue.h>
+#include <cocls/thread_pool.h>
 #include <deque>
 #include <memory>
 #include <optional>
@@ -437,6 +438,65 @@ inline void scheduling_programs(const vf::opts &o, vf::report &R, uint64_t progr
         if (M.nested_drains) R.cls("nested_install_queue_and_call_with_queued_coroutines", M.nested_drains);
         if (unwound) R.cls("activations_started_by_a_destructor_during_stack_unwinding", (uint64_t)unwound);
         if (R.samples.size() < 3 && W.ncoro >= 4) R.sample(describe());
+    }
+}
+
+// ---------------------------------------------------------------------------------------------
+// Wake-ups that reach the thread through coro_queue::resume() (the thread-pool paths): a coroutine W stops a pool while other
+// coroutines are parked in `co_await pool` behind a blocked worker. Their cancellation happens inside W's stop() call, on W's thread,
+// while W is RUNNING - they are ready coroutines now and must not start before W suspends or finishes (also when W's ready queue is
+// empty at that moment), and all of them must have run when control is back in ordinary code.
+struct pcs_world { std::vector<int> trace; cocls::thread_pool *pool = nullptr; int cancelled = 0, ran = 0; cocls::future<void> g; std::optional<cocls::promise<void>> gp; pcs_world() { gp.emplace(g.get_promise()); } };
+inline cocls::async<void> pcs_helper(pcs_world &W) { bool hv = co_await W.g.has_value(); (void)hv; W.trace.push_back(150); }
+inline cocls::async<void> pcs_parked(pcs_world &W, int id) {
+    try { co_await *W.pool; W.ran++; W.trace.push_back(100 + id); }
+    catch (const cocls::await_canceled_exception &) { W.cancelled++; W.trace.push_back(200 + id); }
+}
+inline cocls::async<void> pcs_waker(pcs_world &W, int extra_steps, bool destroy, bool prequeue) {
+    W.trace.push_back(1);
+    if (prequeue) { (*W.gp)(); W.gp.reset(); } // the helper is ready and queued now (discarded suspend point): the ready queue is not empty
+    if (destroy) { delete W.pool; W.pool = nullptr; } else W.pool->stop(); // cancels the parked coroutines (they are READY now)
+    W.trace.push_back(2);
+    for (int i = 0; i < extra_steps; i++) W.trace.push_back(3);
+    W.trace.push_back(4);
+    co_return;
+}
+inline void pool_stop_from_coroutine(const vf::opts &o, vf::report &R, uint64_t cases) {
+    vf::rng master(vf::mix(o.seed, 0x505));
+    for (uint64_t cn = 0; cn < cases && R.nviol() < 5; cn++) {
+        vf::rng r(master.next());
+        int nparked = 1 + (int)r.below(4), extra = (int)r.below(3); bool destroy = r.chance(1, 3), prequeued = r.chance(1, 3);
+        std::string desc = "parked=" + std::to_string(nparked) + (destroy ? " pool destroyed" : " stop()") + (prequeued ? " (something already queued)" : " (ready queue empty)");
+        vf::set_crash_ctx(R.prop.c_str(), "pool_stop_from_coroutine", o.seed, cn, desc.c_str());
+        auto Wp = std::make_unique<pcs_world>(); pcs_world &W = *Wp;
+        W.pool = new cocls::thread_pool(1);
+        cocls::thread_pool *pp = W.pool;
+        std::atomic<int> blocker_started{0};
+        // the only worker is busy until the pool is flagged as stopped: nothing parked behind it can be executed
+        W.pool->run_detached([pp, &blocker_started] { blocker_started.store(1, std::memory_order_release); blocker_started.notify_all(); while (!pp->is_stopped()) usleep(50); });
+        blocker_started.wait(0, std::memory_order_acquire);
+        for (int i = 0; i < nparked; i++) pcs_parked(W, i).detach(); // ordinary code: each runs up to `co_await pool` and parks in the pool's queue
+        bool active_after = false;
+        if (prequeued) pcs_helper(W).detach(); // parks on W.g
+        pcs_waker(W, extra, destroy, prequeued).detach();
+        active_after = cocls::coro_queue::is_active();
+        if (W.pool) { delete W.pool; W.pool = nullptr; }
+        R.cases++;
+        std::string err;
+        // the waker's events 1,2,3*,4 must be contiguous from its first event on: nobody else runs while it is running
+        size_t first = 0; while (first < W.trace.size() && W.trace[first] != 1) first++;
+        size_t need = 3 + (size_t)extra;
+        if (W.gp) { (*W.gp)(); W.gp.reset(); }
+        if (first + need > W.trace.size()) err = "the stopping coroutine did not run to completion";
+        for (size_t k = 0; k < need && err.empty(); k++) { int ev = W.trace[first + k]; if (ev >= 100) err = "a coroutine cancelled by stop() started executing while the coroutine that called stop() was still running (pre-emption)"; }
+        if (err.empty() && W.cancelled + W.ran != nparked) err = std::to_string(nparked - W.cancelled - W.ran) + " parked coroutine(s) neither executed nor cancelled when control returned to ordinary code";
+        if (err.empty() && W.ran) err = "a coroutine parked behind the blocked worker was executed";
+        if (err.empty() && active_after) err = "coroutine mode still active in ordinary code";
+        if (!err.empty()) { std::string tr; for (int e : W.trace) tr += std::to_string(e) + " "; R.violation("monitor:trace|pool_stop_from_coroutine", err, vf::jobj().kv("case", (unsigned long long)cn).kv("desc", desc).kv("trace", tr).str()); continue; }
+        R.nontrivial_cases++;
+        R.sig(desc + " x" + std::to_string(extra));
+        R.cls("coroutines_cancelled_by_a_stop_called_from_a_coroutine", (uint64_t)W.cancelled);
+        if (R.samples.size() < 2) R.sample(vf::jobj().kv("case", desc).kv("result", "cancelled coroutines ran only after the stopping coroutine finished").str());
     }
 }
 
